@@ -1,9 +1,114 @@
-import Gzx.Util
+import Gzx.Model.Luminance
+import Gzx.Model.Binarizer
 namespace Gzx.Driver.C17
-open Gzx
+open Gzx Gzx.Luminance Gzx.Binarizer
 
-/-- line-protocol handler of suite `c17` (arguments after the suite name) -/
+def showV {α} (f : α → String) : VRes α → String
+  | .ok a => f a
+  | .error (.fault (.panic _)) => "PANIC"
+  | .error e => "ERR:" ++ e.tag
+
+def showR {α} (f : α → String) : Res α → String
+  | .ok a => f a
+  | .error (.panic _) => "PANIC"
+  | .error e => "ERR:" ++ e.tag
+
+def checksum (bs : List Nat) : Nat :=
+  bs.foldl (fun acc v => (acc * 31 + v + 1) % 1000000007) 0
+
+def flag (b : Bool) : String := if b then "1" else "0"
+
+/-- executes the op tokens of one `seq` line, returns the output tokens (reversed) -/
+def runOps : View → List String → List String → List String
+  | _, [], acc => acc
+  | v, tok :: rest, acc =>
+    match tok.splitOn ":" with
+    | ["s"] => runOps v rest (("c" ++ flag (isCropSupported v) ++ "r" ++ flag (isRotateSupported v)) :: acc)
+    | ["m"] =>
+      let out := showV (fun m => s!"{v.w}x{v.h}=" ++ showHex (m.take (v.w * v.h))) (getMatrix v)
+      runOps v rest (out :: acc)
+    | ["k"] =>
+      let out := showV (fun m => s!"{v.w}x{v.h}#{checksum (m.take (v.w * v.h))}") (getMatrix v)
+      runOps v rest (out :: acc)
+    | ["g", y, n] =>
+      match parseInt? y, parseInt? n with
+      | some y, some n =>
+        let buf := if n < 0 then none else some (List.replicate n.toNat 170)
+        runOps v rest (showV showHex (getRow v y buf) :: acc)
+      | _, _ => "bad-op" :: acc
+    | ["c", l, t, w, h] =>
+      match parseInt? l, parseInt? t, parseInt? w, parseInt? h with
+      | some l, some t, some w, some h =>
+        match cropI v l t w h with
+        | .ok v' => runOps v' rest ("ok" :: acc)
+        | e => runOps v rest (showV (fun _ => "ok") e :: acc)
+      | _, _, _, _ => "bad-op" :: acc
+    | ["i"] => runOps (invert v) rest ("ok" :: acc)
+    | ["r"] =>
+      match rotateCCW v with
+      | .ok v' => runOps v' rest ("ok" :: acc)
+      | e => runOps v rest (showV (fun _ => "ok") e :: acc)
+    | ["r45"] =>
+      match rotateCCW45 v with
+      | .ok v' => runOps v' rest ("ok" :: acc)
+      | e => runOps v rest (showV (fun _ => "ok") e :: acc)
+    | _ => "bad-op" :: acc
+
+def parseQuad? (s : String) : Option (Nat × Nat × Nat × Nat) :=
+  match (s.splitOn ":").mapM parseNat? with
+  | some [r, g, b, a] => some (r, g, b, a)
+  | _ => none
+
+def showBitRows (w h : Nat) (sets : List (Nat × Nat)) : String :=
+  let a := render w h sets
+  "/".intercalate ((List.range h).map (fun y =>
+    String.ofList ((List.range w).map (fun x => if a.getD (y * w + x) false then '1' else '0'))))
+
 def handle : List String → String
+  | "seq" :: kind :: dw :: dh :: left :: top :: w :: h :: rev :: data :: ops =>
+    match parseNat? dw, parseNat? dh, parseInt? left, parseInt? top, parseNat? w, parseNat? h, parseHex? data with
+    | some dw, some dh, some left, some top, some w, some h, some data =>
+      let start : VRes View :=
+        if kind == "rgb" then .ok (ofLuminances .rgb w h data)
+        else if kind == "img" then .ok (ofLuminances .img w h data)
+        else newYUV data dw dh left top w h (rev == "1")
+      match start with
+      | .ok v => ";".intercalate (runOps v ops []).reverse
+      | e => showV (fun _ => "ok") e
+    | _, _, _, _, _, _, _ => "bad-op"
+  | ["conv", "rgb", ps] =>
+    match parseIntList? ps with
+    | some ps => showHex (ps.map lumOfRGBInt)
+    | none => "bad-op"
+  | ["conv", "gray", ps] =>
+    match parseNatList? ps with
+    | some ps => showHex ps
+    | none => "bad-op"
+  | ["conv", "rgba16", qs] =>
+    match (qs.splitOn ",").mapM parseQuad? with
+    | some qs => showHex (qs.map (fun (r, g, b, a) => lumOfRGBA16 r g b a))
+    | none => "bad-op"
+  | ["ebp", bs] =>
+    match parseNatList? bs with
+    | some bs => showR toString (estimateBlackPoint bs)
+    | none => "bad-op"
+  | ["brow", row] =>
+    match parseHex? row with
+    | some row => showR showBits (blackRow row)
+    | none => "bad-op"
+  | ["glob", w, h, data] =>
+    match parseNat? w, parseNat? h, parseHex? data with
+    | some w, some h, some data => showR (showBitRows w h) (globalSets data.toArray w h)
+    | _, _, _ => "bad-op"
+  | ["hyb", w, h, data] =>
+    match parseNat? w, parseNat? h, parseHex? data with
+    | some w, some h, some data => showR (showBitRows w h) (hybridSets data.toArray w h)
+    | _, _, _ => "bad-op"
+  | ["hbp", w, h, data] =>
+    match parseNat? w, parseNat? h, parseHex? data with
+    | some w, some h, some data =>
+      showR (fun rows => "/".intercalate (rows.map showNatList)) (calculateBlackPoints data.toArray w h)
+    | _, _, _ => "bad-op"
   | _ => "bad-op"
 
 end Gzx.Driver.C17
